@@ -247,7 +247,9 @@ PROPS["C16"] = dict(
     assumptions=SEQ_ASSUME + ["identity is a modelled notion: node ids in the model, id() of the built-in containers in the implementation"])
 SPECIAL["c09"] = _conc_tasks([("writers", [0, 3, 1, 2])], (14, 1, 160, 6), (80, 2, 2500, 40))
 SPECIAL["c13"] = _conc_tasks([("buffered", [1, 2, 4, 5])], (24, 1, 160, 6), (70, 2, 2500, 40))
-SPECIAL["c14"] = _conc_tasks([("readers", [0, 3, 1, 2])], (14, 1, 160, 6), (80, 2, 2500, 40))
+_c14_a = _conc_tasks([("readers", [0, 3, 1, 2])], (14, 1, 160, 6), (80, 2, 2500, 40))
+_c14_b = _conc_tasks([("bufreaders", [1, 2, 4, 5])], (64, 1, 200, 6), (120, 2, 2500, 40))
+SPECIAL["c14"] = lambda tier, seed: _c14_a(tier, seed) + _c14_b(tier, seed)
 SPECIAL["c10"] = _c10_tasks
 CONC_RULE = ("generated programs of 2-3 threads x 1-2 operations (every public mutator incl. clear/reset/pop/reverse, on the root, on a second "
              "object bound to the same file and on child handles navigated before the threads start); for each program all serial orders are "
@@ -502,6 +504,7 @@ def replay(prop, path):
         ex = payload["extra"]
         fam = ns.families[ex["fam_index"]]
         prog = eval(ex["prog"], {"Program": conc.Program, "MISSING": MISSING})
+        prog.strategy = fam.buffered
         serial = [conc.run_serial(ns, fam, prog, o) for o in conc.serial_orders(prog)]
         if payload["kind"] == "conc":
             run = conc.replay_conc(ns, fam, prog, [tuple(x) for x in ex["switches"]], ex["start"])
